@@ -39,6 +39,17 @@ class Adapter:
         from maltoolbox.attackgraph import AttackGraph
         L = case['lang']
         spec = materialise.spec_of(L)
+        # a specification put together in Python may use ONE object for equal parts: steps of an asset with the same
+        # reaches clause share it here (equal by value - the language is the same)
+        for a in spec['assets']:
+            seen = {}
+            for st in a['attackSteps']:
+                if st.get('reaches'):
+                    k = json.dumps(st['reaches'], sort_keys=True)
+                    if k in seen:
+                        st['reaches'] = seen[k]
+                    else:
+                        seen[k] = st['reaches']
         snap = copy.deepcopy(spec)
         res = {'steps': 0, 'div': [], 'features': []}
         modes = sorted({('extend' if s['reaches']['present'] and not s['reaches']['overrides'] else
